@@ -4,6 +4,7 @@ from ..common import calls_in, norm, DF, LOD, GEO, kw
 from ..model import AnalysisError, FunctionInfo, body_nodes
 from ..signatures import name_uses
 from ..dataflow import defs_reaching
+from ..facts import facts_at
 from .. import tables
 
 EXPLANATION = (
@@ -247,8 +248,36 @@ def check(ctx):
     enc_tests = [n for n in cfgw.nodes if n.kind == "test" and "codecs.lookup" in norm(n.ast) and "encoding" in norm(n.ast)]
     rew = [c for _, c in calls_in(wc) if repo.dotted(wc, c.func) == "dataiter.util.xopen" and kw(c, "encoding") is not None
            and norm(kw(c, "encoding")) == "encoding" and len(c.args) > 1 and "w" in norm(c.args[1])]
+    if enc_tests:
+        ctx.ob("FWD-live", wc, "the file is re-opened for writing with encoding=encoding", rew[0] if rew else enc_tests[0].ast, bool(rew),
+               "the requested encoding is the one the file is rewritten in" if rew else
+               "write_csv tests for a non-UTF-8 encoding but never re-opens the file for writing with encoding=encoding: the option is "
+               "accepted and the file stays UTF-8", clause="every encoding option used consistently on both sides")
     if enc_tests and rew:
         rn = cfg_node_of(wc, rew[0])
+        # polarity: the rewrite happens when the requested encoding is NOT UTF-8
+        fr = facts_at(wc, rew[0])
+        pol = any((k == "T" and "!=" in t and "codecs.lookup" in t) or (k == "F" and "==" in t and "codecs.lookup" in t) for k, t in fr)
+        ctx.ob("FWD-live", wc, "re-encoding happens when the requested encoding differs from UTF-8", rew[0], pol,
+               "the rewrite is under `lookup(encoding) != lookup('utf-8')`" if pol else
+               f"the rewrite is under {[t for k, t in fr if 'codecs.lookup' in t]}: a non-UTF-8 encoding is NOT re-encoded (and UTF-8 is "
+               f"rewritten needlessly), so read_csv with the same encoding fails or returns mojibake",
+               clause="every encoding option used consistently on both sides")
+        # what is written back is what was read
+        wstmt = wc.module.parent.get(rew[0])
+        while wstmt is not None and not isinstance(wstmt, ast.With):
+            wstmt = wc.module.parent.get(wstmt)
+        writes = [c for b in (wstmt.body if wstmt is not None else []) for c in ast.walk(b)
+                  if isinstance(c, ast.Call) and isinstance(c.func, ast.Attribute) and c.func.attr == "write" and c.args]
+        okw = False
+        if writes and isinstance(writes[0].args[0], ast.Name):
+            ds = defs_reaching(wc, writes[0].args[0].id, writes[0])
+            okw = bool(ds) and all(d.value is not None and isinstance(d.value, ast.Call) and isinstance(d.value.func, ast.Attribute)
+                                   and d.value.func.attr == "read" for d in ds)
+        ctx.ob("FWD-live", wc, "the text read back in UTF-8 is the text written in the requested encoding", writes[0] if writes else rew[0], okw,
+               "f.write(text) with text = f.read()" if okw else
+               "the re-encoding pass does not write back what it read: the file is left empty or with other content",
+               clause="reading back a file written by the matching write method")
         starts = [s_ for s_, lab in enc_tests[0].succ if lab == "T"]
         bad = [cfgw.path_avoiding(lambda n: n is rn, start=s_) for s_ in starts if s_ is not rn]
         bad = [p_ for p_ in bad if p_ is not None]
